@@ -467,19 +467,23 @@ def boundedLev (a b : Str) (k : Nat) : Option Nat :=
       | some d => if d ≤ k then some d else none
       | none => none
 
+/-- one dictionary term is a fuzzy candidate of token `tok`: non-empty, shares the first
+`prefix_length` characters, differs from `tok`, and `bounded_levenshtein` reports a non-zero
+distance within `min(max_edits, 2)` -/
+def fuzzyCond (fz : Fuzzy) (tok t : Str) : Bool :=
+  !t.isEmpty && isPrefix (tok.take (min fz.prefixLength tok.length)) t && t != tok &&
+    (match boundedLev tok t (min fz.maxEdits 2) with | some dist => dist != 0 | none => false)
+
+/-- fuzzy candidates of one token over all segments, before the `max_expansions` cut -/
+def fuzzyCands (segs : List Seg) (f tok : Str) (fz : Fuzzy) : List Str :=
+  segs.foldl (fun seen s =>
+    seen ++ (segTerms s f).filter (fun t => fuzzyCond fz tok t && !seen.contains t)) []
+
 /-- `expand_term_fuzzy` for one token: the exact key first, then dictionary terms sharing the
 first `prefix_length` characters within `max_edits`, at most `max_expansions` over all segments -/
 def expandFuzzy (segs : List Seg) (f tok : Str) (fz : Fuzzy) : List Str :=
-  let tl := tok.length
-  if tl < fz.minLength ∨ fz.maxExpansions = 0 then [tok] else
-  let k := min fz.maxEdits 2
-  let pre := tok.take (min fz.prefixLength tl)
-  let cands := segs.foldl (fun seen s =>
-    seen ++ (segTerms s f).filter (fun t =>
-      !t.isEmpty && isPrefix pre t && t != tok &&
-      (match boundedLev tok t k with | some dist => dist != 0 | none => false) &&
-      !seen.contains t)) []
-  tok :: cands.take fz.maxExpansions
+  if tok.length < fz.minLength ∨ fz.maxExpansions = 0 then [tok]
+  else tok :: (fuzzyCands segs f tok fz).take fz.maxExpansions
 
 /-- match keys of a group on one field (`expand_term_for_group`) -/
 def expandField (c : Ctx) (segs : List Seg) (g : Group) (f : Str) : List Str :=
@@ -859,16 +863,21 @@ def phraseField (c : Ctx) (d : ADoc) (f : Str) (terms : List Str) (slop : Nat) :
 def phrase (c : Ctx) (d : ADoc) (p : PhraseSpec) : Bool :=
   p.fields.any (fun f => phraseField c d f p.terms p.slop)
 
-/-- Levenshtein distance, textbook recursion
-`lev (x::a) (y::b) = if x = y then lev a b else 1 + min (lev a (y::b)) (lev (x::a) b) (lev a b)`
-(written with an inner recursion on the second word so that it is structural) -/
+/-- Levenshtein distance by the textbook (Wagner–Fischer) recurrence on prefixes
+`d(i,0) = i`, `d(0,j) = j`,
+`d(i,j) = min (d(i-1,j) + 1) (d(i,j-1) + 1) (d(i-1,j-1) + [aᵢ ≠ bⱼ])`.
+A prefix is represented by the reversed list of its characters (head = its last character);
+`levAux x (levP a)` is `levP (x :: a)` (inner recursion on the second word, so that the
+definition is structural). -/
 def levAux (x : Nat) (la : Str → Nat) : Str → Nat
-  | [] => 1 + la []
-  | y :: b => if x = y then la b else 1 + min (min (la (y :: b)) (levAux x la b)) (la b)
+  | [] => la [] + 1
+  | y :: b => min (min (la (y :: b) + 1) (levAux x la b + 1)) (la b + (if x = y then 0 else 1))
 
-def lev : Str → Str → Nat
+def levP : Str → Str → Nat
   | [], b => b.length
-  | x :: a, b => levAux x (lev a) b
+  | x :: a, b => levAux x (levP a) b
+
+def lev (a b : Str) : Nat := levP a.reverse b.reverse
 
 /-- fuzzy acceptance of dictionary term `t` for search token `tok` -/
 def fuzzyOk (fz : Fuzzy) (tok t : Str) : Bool :=
@@ -954,14 +963,6 @@ def searchOrds (c : Ctx) (segs : List Seg) (q : Q) (root : Option Flt) : List (L
 end Spec
 
 /-! ## decidable side conditions of the refinement theorem (also reported by the driver) -/
-
-/-- fuzzy candidates of one token over all segments, before the `max_expansions` cut -/
-def fuzzyCands (segs : List Seg) (f tok : Str) (fz : Fuzzy) : List Str :=
-  segs.foldl (fun seen s =>
-    seen ++ (segTerms s f).filter (fun t =>
-      !t.isEmpty && isPrefix (tok.take (min fz.prefixLength tok.length)) t && t != tok &&
-      (match boundedLev tok t (min fz.maxEdits 2) with | some dist => dist != 0 | none => false) &&
-      !seen.contains t)) []
 
 /-- the group stays below its expansion caps: per segment at most `max_expansions` dictionary
 terms match a prefix/wildcard/regex pattern; all fuzzy candidates of a token fit into the
